@@ -149,7 +149,7 @@ func ruleAuthZen(e *Engine, r *Reporter) {
 	r.Check(corrOK, fname(ea)+" | correlation id = index", e.pos(ea.Pos()), "CorrelationId = Itoa(i)", "batch items are not tagged with their own index")
 	r.Check(readOK, fname(ea)+" | result i read for response i", e.pos(ea.Pos()), "responses[i] built from result Itoa(i)", "a response slot is filled from a result looked up under another index")
 
-	r.Rule("authzen-store-and-model", "every native request an AuthZEN handler builds carries the AuthZEN request's store id", 5)
+	r.Rule("authzen-store-and-model", "every native request an AuthZEN handler builds carries the AuthZEN request's store id", 3)
 	for _, f := range fns {
 		eachInstr(f, true, func(in ssa.Instruction) {
 			st, ok := in.(*ssa.Store)
